@@ -45,6 +45,11 @@ Definition table : list (string * (sx -> sx)) := [
   (* [fixed base hasdir dir_raw s] *)
   ("within.copy_via", fun a => sx_res (copy_via (un_bool (nth_sx 0 a)) (un_strs (nth_sx 1 a)) (un_bool (nth_sx 2 a))
                                         (un_strs (nth_sx 3 a)) (un_path (nth_sx 4 a))));
+  (* [path] *)
+  ("within.lex_default_name", fun a => sx_res (lex_default_name (un_path (nth_sx 0 a))));
+  (* [fixed base hasdir dir_raw s] *)
+  ("within.lex_via", fun a => sx_res (lex_via (un_bool (nth_sx 0 a)) (un_strs (nth_sx 1 a)) (un_bool (nth_sx 2 a))
+                                       (un_strs (nth_sx 3 a)) (un_path (nth_sx 4 a))));
   (* [make steps] *)
   ("within.emit", fun a => sx_emit (emit (un_bool (nth_sx 0 a)) (map un_strs (un_list (nth_sx 1 a)))))
 ]%string.
